@@ -1,4 +1,4 @@
-from vf.gen import Plan
+from vf.gen import Plan, Module
 from props.fam_l1 import l1_loader_module
 from props.fam_l3 import l3_module
 from props.fam_l2 import l2_module
@@ -12,5 +12,60 @@ def build(tier, seed):
         if m15.key == "c15_literal":
             m15.obs = [o for o in m15.obs if o.name.startswith("lit_loader_")]
             mods.append(m15)
+    md = Module("c07_derived").pre('''
+import dataclasses
+from adaptix import Retort, DebugTrail
+@dataclasses.dataclass
+class DM:
+    a: int
+    s: str = "d"
+DTYPES = (int, str, bool, float, List[str], Optional[int], Dict[str, int], Tuple[int, str], DM, Union[int, str])
+def _touch(r, order_types):
+    for t in order_types: r.get_loader(t)
+# derived retorts: (name, make(base) -> derived, (strict, debug_trail) the derived one must behave like)
+DERIV = (
+    ("lax", lambda b: b.replace(strict_coercion=False), (False, DebugTrail.ALL)),
+    ("lax_first", lambda b: b.replace(strict_coercion=False, debug_trail=DebugTrail.FIRST), (False, DebugTrail.FIRST)),
+    ("lax_disable", lambda b: b.replace(debug_trail=DebugTrail.DISABLE).replace(strict_coercion=False), (False, DebugTrail.DISABLE)),
+    ("lax_hide", lambda b: b.replace(strict_coercion=False, hide_traceback=False), (False, DebugTrail.ALL)),
+    ("lax_ext", lambda b: b.extend(recipe=[]).replace(strict_coercion=False), (False, DebugTrail.ALL)),
+    ("strict_again", lambda b: b.replace(strict_coercion=False).replace(strict_coercion=True), (True, DebugTrail.ALL)),
+    ("hide_only", lambda b: b.replace(hide_traceback=False), (True, DebugTrail.ALL)),
+)
+FRESH = {(st, dt): {t: Retort(strict_coercion=st, debug_trail=dt).get_loader(t) for t in DTYPES} for st in (True, False) for dt in DT_MODES}
+CASES = []          # (derived loaders, base loaders, derived mode)
+for _name, _mk, _mode in DERIV:
+    for _order in ("derived_first", "base_first"):
+        _base = Retort(strict_coercion=True, debug_trail=DebugTrail.ALL)
+        if _order == "base_first": _touch(_base, DTYPES)
+        _d = _mk(_base)
+        _dl = {t: _d.get_loader(t) for t in DTYPES}
+        _bl = {t: _base.get_loader(t) for t in DTYPES}
+        CASES.append((_dl, _bl, _mode))
+NC = len(CASES)
+def wrapd(kind, d):
+    if kind == 0: return d
+    if kind == 1: return [d]
+    if kind == 2: return {"a": d}
+    if kind == 3: return (d, "x")
+    return {"a": d, "s": d}
+DPOOL = (None, True, False, 0, 1, -1, "", "a", "1", 1.5)
+def derived(ci, ti, kind, di):
+    d = DPOOL[pick(di, len(DPOOL))]
+    dl, bl, mode = CASES[ci]
+    t = DTYPES[pick(ti, len(DTYPES))]
+    for got, exp in ((dl[t], FRESH[mode][t]), (bl[t], FRESH[(True, DT_MODES[2])][t])):
+        o1, o2 = outcome(got, wrapd(kind, d)), outcome(exp, wrapd(kind, d))
+        if o1[0] != o2[0] or o1[1] != o2[1]: return False
+        if o1[0] == "ok" and not (same(o1[2], o2[2]) or (t is DM and o1[2] == o2[2])): return False
+    return True
+''')
+    for ci in range(14):
+        md.ob(f"derived_{ci:02d}", "ti: int, kind: int, di: int", f"return derived({ci}, ti, kind, di)",
+              pre=["0 <= ti < 10", "0 <= kind <= 4", "0 <= di < 10"], timeout=90 if tier == "quick" else 300,
+              family="retorts derived with replace()/extend() narrow or widen coercion exactly like a fresh retort with those options; the parent keeps its own",
+              bounds="7 derivations (strict_coercion with / without debug_trail, hide_traceback, via extend, there and back) x loader requested from the derived or "
+                     "the parent retort first; 10 types; 10 pooled atoms (None, bools, ints, strs, float) bare or in 4 wrappers; compared with fresh retorts")
+    mods.append(md)
     return Plan("C07", mods, assumptions=["CrossHair models of builtins (floats as reals: numeric boundary regions are owned by the E2 kernels)"],
                 bounds={}, outside=["strings longer than the bound"])
